@@ -17,7 +17,9 @@ package internal
 //@   props    C08
 //@   pure
 //@   requires width <= 1<<31
-//@   ensures  range: isInt(result) && 0 <= result && result <= real(width)
+//@   ensures  integral: isInt(result)
+//@   ensures  nonneg: 0 <= result
+//@   ensures  range: result <= real(width)
 //@   ensures  zero: current <= 0 || total <= 0 ==> result == 0
 //@   ensures  full: 0 < total && total <= current ==> result == real(width)
 //@   ensures  nearest: 0 <= current && current < total ==>
